@@ -271,5 +271,5 @@ func main() {
 		"delay-bounded exhaustive exploration (total deviations <= T) of ten pool / close scenarios on a real Session over scripted nodes: concurrent Pick-triggered fills, connections dropped by the node, dial failures, a transport whose Close fails, host removal racing queries, Session.Close racing queries, a second Close, a ring refresh, a control-connection reconnect, and Close immediately after NewSession",
 		[]string{"1-2 hosts, pool size 1-3, 1-2 callers, 1-2 closers; horizon 20s of virtual time (heartbeats and debounce timers run); ReconnectInterval 0",
 			"data races proper are looked for by the separate free-running -race pass; here shared-state errors show up through the oracles (pool bound, closed connections in pools, open transports, live goroutines, Close not returning = deadlock report)"},
-		defs, 80*time.Second, 12*time.Minute, nil)
+		defs, 80*time.Second, 25*time.Minute, nil)
 }
